@@ -66,6 +66,9 @@ type Op struct {
 	DelM  string `json:"delm,omitempty"`
 	Label string `json:"label,omitempty"` // check: name of the phase
 	NPred int    `json:"npred,omitempty"` // check: number of predicates (0: id lookups and listings only)
+	// Quiet (clear / reopen): the id lookups of every known series that normally follow are left
+	// out - they would put every series back into the caches that were just dropped
+	Quiet bool `json:"quiet,omitempty"`
 }
 
 // History is a self-contained, replayable case.
@@ -224,6 +227,20 @@ func genHistory(r *rand.Rand, id int, bloom, compress bool, nPred int) *History 
 		}
 		h.Ops = append(h.Ops, op)
 		done = append(done, order[pos-bs:pos]...)
+		// one time in three: the caches are dropped (or the index re-opened) and the next batch
+		// STARTS with a series never seen, followed by known ones: the write path stops looking
+		// rows up at the first unknown one, so the known rows behind it reach the index's
+		// create-if-absent step without a lookup and with nothing cached
+		if pos < len(order) && len(done) >= 3 && r.IntN(3) == 0 {
+			h.Ops = append(h.Ops, Op{Kind: "flush"}, Op{Kind: pick(r, []string{"clear", "clear", "reopen"}), Quiet: true})
+			it := []int{order[pos]}
+			for q := 2 + r.IntN(4); q > 0; q-- {
+				it = append(it, done[r.IntN(len(done))])
+			}
+			h.Ops = append(h.Ops, Op{Kind: "insert", Items: it, Path: "builder"})
+			done = append(done, order[pos])
+			pos++
+		}
 		// interleave maintenance
 		for k := r.IntN(3); k > 0; k-- {
 			switch r.IntN(6) {
